@@ -12,16 +12,12 @@ namespace Resp
 deriving instance DecidableEq for ClientResp
 deriving instance DecidableEq for Resp.Outcome
 
-instance (rc : ReqCtx) (o : OriginResp) : Decidable (InputF1 rc o) := by
-  unfold InputF1; exact inferInstance
-instance (rc : ReqCtx) (o : OriginResp) : Decidable (InputF22 rc o) := by
-  unfold InputF22; exact inferInstance
 instance (o : OriginResp) : Decidable (OriginWF o) := by
   unfold OriginWF; exact inferInstance
 
 /-- evaluate `processResponse` / `readResponse` on concrete arguments -/
 macro "resp_eval" : tactic =>
-  `(tactic| (unfold processResponse readResponse headerOnly Req.removeHopByHop Req.hopByHopNames Req.upgradeType; bs_norm; (try simp only [natToDec_eq]); decide +kernel))
+  `(tactic| (unfold processResponse frameForClient trailerKeys readResponse headerOnly Req.removeHopByHop Req.hopByHopNames Req.upgradeType; bs_norm; (try simp only [natToDec_eq]); decide +kernel))
 
 end Resp
 end FwdVerif
